@@ -2,7 +2,7 @@
 
     spec: Persist.tla over RecordSM (abstract record = sequence, topology, every feature [type, location, payload], areas with
     numbers and cross references; a round trip is a stuttering step and the first output a fixed point). Persist_MC explores
-    the pipeline-ordered RecordSM states of three universes (equal-coordinate protoclusters and subregions, origin-spanning areas
+    the pipeline-ordered RecordSM states of four universes (equal-coordinate protoclusters and subregions, origin-spanning areas
     and genes, several regions); every state is built for real from a *parsed* GenBank skeleton through the secmet API with the
     payload table of harness/persist.py, then taken through GenBank text, record JSON and the results file, twice each;
     Persist_Trace decides "same abstract record" and "same bytes the second time". Seeded random universes and histories on top.
@@ -38,7 +38,7 @@ def run(ctx):
     max_areas = 4 if ctx.quick else 6
     # (TLC's coverage mode runs out of memory on the recursive operators of Persist.tla; vacuity is read off the dump instead)
     mc = tlc.run("Persist_MC", persist.mc_config(max_areas), ctx.workdir, dump=True, timeout=3000, heap="3g")
-    ctx.model(mc, f"Persist_MC pipeline-ordered RecordSM states over 3 universes, <= {max_areas} areas")
+    ctx.model(mc, f"Persist_MC pipeline-ordered RecordSM states over 4 universes, <= {max_areas} areas")
     cases = persist.mc_cases(mc, 0)   # enumerated cases are identified by their input: fixed sequence seed
     missing = {"areas", "cands", "regions", "done"} - {case["phase"] for case in cases}
     if missing:
@@ -86,10 +86,11 @@ def run(ctx):
     for sample in samples:
         ctx.sample(sample, limit=6)
     ctx.exhaustive = True
-    ctx.rule = (f"every state of Persist_MC (three universes: ring of 12 with equal-coordinate protoclusters, an origin-spanning sideloaded "
+    ctx.rule = (f"every state of Persist_MC (four universes: ring of 12 with equal-coordinate protoclusters, an origin-spanning sideloaded "
                 f"protocluster and gene, non-consecutive numbers in the origin-spanning region; line of 12 with regions at both record ends, "
                 f"identical subregions, codon_start genes, a reverse-strand prepeptide, an intron; ring of 9 with areas meeting across the "
-                f"origin and a reverse-strand origin-spanning gene; genes first, areas in ascending or descending order, <= {max_areas} areas, "
+                f"origin and a reverse-strand origin-spanning gene; ring of 12 with genes in several exons around the origin (origin inside an intron on "
+                f"both strands, an exon cut by the origin) inside an origin-spanning region; genes first, areas in ascending or descending order, <= {max_areas} areas, "
                 f"candidates, regions, optional late gene) is built as a real record ({persist.SCALE} bases per unit) from a parsed GenBank skeleton with the payload "
                 f"table (gene payloads {sorted(persist.GENE_PAYLOADS)}, protocluster {sorted(persist.PROTO_PAYLOADS)}, subregion {sorted(persist.SUB_PAYLOADS)}) "
                 f"and taken through GenBank text, record JSON and the results file twice; plus seeded random universes with pipeline-ordered "
